@@ -24,7 +24,11 @@
      the data values are Go strings held in an interface{} (DStr), which is
      what the session histories of the harness store. Numbers are NOT in the
      stable class: an int comes back from JSON as a float64 (C17;
-     Proofs/CodecBridge3.v has the witnesses);
+     Proofs/CodecBridge4.v has the witnesses). The bridge therefore covers
+     string user IDs and string data values only. Integer user IDs, which C16
+     names, are outside it: gob hands LoadUser the int unchanged, JSON hands
+     it a float64, so a loader keyed on the int fails or must accept the
+     float (witness: ex_int_user_sess, C09B_json_int_user_refuted);
    - the user-agent hash is the uint64 itself;
    - a user (id, version) is the object with GetID() = text of id and tag =
      version; LoadUser (bridge_load) yields the object with the same ID and
@@ -202,6 +206,18 @@ Definition decode_encode (c : Sess.cfg) (s : csess) : result csess :=
   then json_roundtrip_bytes bridge_load lib_fmt_time lib_parse_time json_enc json_dec s
   else gob_roundtrip_bytes bridge_load gob_version gob_enc gob_dec s.
 
+(* the same with any LoadUser *)
+Definition decode_encode_with (load : loader) (c : Sess.cfg) (s : csess) : result csess :=
+  if Sess.c_json c
+  then json_roundtrip_bytes load lib_fmt_time lib_parse_time json_enc json_dec s
+  else gob_roundtrip_bytes load gob_version gob_enc gob_dec s.
+
+(* the closed boolean every JSON theorem of the bridge has as premise (C17:
+   json_da_null_ok, Proofs/CodecDefs.v - the same term): does UnmarshalJSON, as
+   the regenerated table has it, accept the null MarshalJSON writes for nil
+   data? false = defect D3 *)
+Definition da_null_ok_now : bool := null_ok_for k_da json_dec.
+
 (* ------------------------------------------------------------------ guards *)
 
 (* RFC 3339 writes local years 0..9999 only (C17's domain); on the model's
@@ -235,6 +251,18 @@ Definition ex_rec_replaced : Sess.rec :=
 (* the same session as ex_rec, but with an integer as data value *)
 Definition ex_int_sess : csess :=
   Codec.set_data (Some [(dec 1, DInt 10)]) (emb_rec ex_rec).
+
+(* the same session logged in as a user whose ID is the Go int 7 (the kind of
+   ID C16 names), and a LoadUser that knows exactly that ID *)
+Definition ex_int_user_sess : csess :=
+  Codec.set_user (Some (mkUser (DInt 7) 3)) (emb_rec ex_rec).
+
+Definition int7_load : loader :=
+  fun id => if dval_eqb id (DInt 7) then Some (Some (mkUser id 0)) else None.
+
+(* a LoadUser that records what it is handed: the user it returns carries the
+   ID it was asked for *)
+Definition echo_load : loader := fun id => Some (Some (mkUser id 0)).
 
 (* ... and with a string that is not valid UTF-8 *)
 Definition ex_bad_utf8_sess : csess :=
